@@ -106,7 +106,7 @@ package grpc
 //@   assert at call NewTimer#1 ncalls("throttle") == 1
 //@   assert at return 2 !old(cs.finished) && !old(cs.committed) && !old(a.drop) && a.transportStream == nil && a.allowTransparentRetry
 //@   assert at return 3 !old(cs.finished) && !old(cs.committed) && !old(a.drop) && cs.firstAttempt && lastret("Unprocessed") == 1
-//@   assert at call NewTimer#1 !old(cs.finished) && !old(cs.committed) && !old(a.drop) && (ncalls("TrailersOnly") == 0 || lastret("TrailersOnly") == 1)
+//@   assert at call NewTimer#1 !old(cs.finished) && !old(cs.committed) && !old(a.drop) && ncalls("Trailer") == ncalls("TrailersOnly") && (ncalls("TrailersOnly") == 0 || lastret("TrailersOnly") == 1)
 //@   assert at call NewTimer#1 rp != nil && cs.numRetries+1 < rp.MaxAttempts
 //@   assert at call NewTimer#1 implies(hasPushback && Z(pushback) <= 9223372036854, Z(arg0) == 1000000 * Z(pushback) && cs.numRetriesSincePushback == 0)
 
